@@ -165,7 +165,7 @@ impl FromStr for Move {
         if s == "0000" {
             return Ok(Move::Null);
         }
-        if !matches!(s.len(), 4 | 5) {
+        if !matches!(s.len(), 4 | 5) || !s.is_ascii() {
             return Err(RawParseError::BadLength);
         }
         let src = Coord::from_str(&s[0..2]).map_err(RawParseError::BadSrc)?;
